@@ -1384,8 +1384,12 @@ class Quantity(metaclass=QuantityMeta):
                 raise
         else:
             if factor is None:
-                # try registered converters:
-                for conv in self.__class__.registered_converters():
+                # try registered converters (a converter may register or
+                # remove converters while it is consulted):
+                cls = self.__class__
+                for conv in tuple(cls.registered_converters()):
+                    if not any(c is conv for c in cls._converters):
+                        continue
                     amnt = conv(self, unit)
                     if amnt is not None:
                         return amnt
